@@ -301,6 +301,31 @@ pub fn run(ctx: &Ctx) -> PropResult {
             judge_datetime(rec, day.clamp(cal::MIN_DAY + 2, cal::MAX_DAY - 2), rng.range_i128(0, D - 1), gen_offset(rng), op, n);
         }
     }).fresh(1));
+    // call sequences: one shift, then shifts of neighbouring starts / other counts reaching the same or an adjacent
+    // target month, a shift that must fail in between, and the first shift again
+    wls.push(Workload::cases("sibling_call_sequences", ctx.count(40_000, 1_500_000), |rec, idx, rng| {
+        let day = match rng.below(3) {
+            0 => rng.range_i64(-1500, 1500),
+            1 => cal::days_from_civil(rng.range_i64(1990, 2030), rng.below(12) as u32 + 1, 27) + rng.below(5) as i64,
+            _ => rng.range_i64(cal::MIN_DAY + 3, cal::MAX_DAY - 3),
+        };
+        let op = (idx % 4) as usize;
+        let n = if rng.chance(2, 3) { rng.below(40) as u32 } else { special_counts(rng, day, op) };
+        rec.bin("sequence/sibling-calls");
+        judge_date(rec, day, op, n);
+        for _ in 0..3 {
+            let d2 = (day + *rng.pick(&[0i64, 1, -1, 28, 31, -31, 365, -366])).clamp(cal::MIN_DAY + 3, cal::MAX_DAY - 3);
+            let op2 = if rng.chance(1, 2) { op } else { rng.below(4) as usize };
+            let n2 = match rng.below(4) {
+                0 => n,
+                1 => n.wrapping_add(*rng.pick(&[1u32, 12, u32::MAX, u32::MAX - 11])),
+                2 => *rng.pick(&[1u32 << 28, 1 << 27, 1 << 29, 1 << 30, (1 << 28) + 1, 3 << 27]),
+                _ => special_counts(rng, d2, op2),
+            };
+            judge_date(rec, d2, op2, n2);
+        }
+        judge_date(rec, day, op, n);
+    }));
     wls.push(Workload::cases("offset_local_twins", ctx.count(4_000, 150_000), |rec, _, rng| super::localzone::twin_case(rec, rng, "C05", super::walk::Family::Months)));
     wls.push(Workload::cases("api_walks", ctx.count(30_000, 1_500_000), |rec, _, rng| super::walk::walk(rec, rng, "C05", super::walk::Family::Months)));
     let out = run_workloads(ctx, wls);
@@ -311,6 +336,7 @@ pub fn run(ctx: &Ctx) -> PropResult {
         if quick { ", quick: days with dom < 28 thinned 6x" } else { "" }
     );
     meta.required_bins = vec![
+        "sequence/sibling-calls",
         "local-twin/judged", "local-twin/synthetic-fixed-zone", "local-twin/real-zone-with-transitions",
         "clamp/none", "clamp/to28", "clamp/to29", "clamp/to30", "unrepresentable", "cross/BC→AD", "cross/AD→BC", "cross/none-BC", "cross/none-AD",
         "dom/29", "dom/30", "dom/31", "op/add_months", "op/sub_months", "op/add_years", "op/sub_years", "N>=2^31",
